@@ -109,6 +109,11 @@ Theorem C06_datetime_order_agrees_refuted : ~ datetime_order_agrees_statement.
 Proof. exact datetime_order_agrees_refuted. Qed.
 Print Assumptions C06_datetime_order_agrees_refuted.
 
+(* 5b. the same for xs:time: equality of one instant written with two offsets fails (float rounding) *)
+Theorem C06_time_order_agrees_refuted : ~ time_order_agrees_statement.
+Proof. exact time_order_agrees_refuted. Qed.
+Print Assumptions C06_time_order_agrees_refuted.
+
 (* non-vacuity of the hypotheses above *)
 Example C06_guards_inhabited :
   wf_datetime (mk_datetime_sp (mk_year_sp true [49;50;48;48;48]%N) 2 29 24 0 0 [48;48]%N (TzOff true 14 0)) = true
